@@ -37,6 +37,7 @@ fn main() {
     let rt = tokio::runtime::Builder::new_multi_thread().worker_threads(8).enable_time().build().unwrap();
     rt.block_on(async move {
         let mut hung = 0usize;
+        let mut stuck = 0usize;
         let mut total = 0usize;
         let mut first = String::new();
         for round in 0..rounds {
@@ -59,19 +60,37 @@ fn main() {
             }
             go.wait().await;
             // the target ends while the asks are on their way
-            match round % 3 {
-                0 => {
-                    let _ = b.kill();
+            let ending = tokio::time::timeout(Duration::from_secs(3), async {
+                match round % 3 {
+                    0 => {
+                        let _ = b.kill();
+                    }
+                    1 => {
+                        let _ = b.tell(Ping(true)).await;
+                    }
+                    _ => {
+                        let _ = b.stop().await;
+                    }
                 }
-                1 => {
-                    let _ = b.tell(Ping(true)).await;
-                }
-                _ => {
-                    let _ = b.stop().await;
-                }
-            }
+            })
+            .await;
+            // an actor that does not end at all is not this probe's subject, but must not hang it
+            let _ = b.kill();
             drop(b);
-            let _ = j.await;
+            let ended = tokio::time::timeout(Duration::from_secs(3), j).await;
+            if ending.is_err() || ended.is_err() {
+                stuck += 1;
+                if first.is_empty() {
+                    first = format!("round {round}: the actor did not end within 3 s of kill / stop / a panicking handler");
+                }
+                for h in hs {
+                    h.abort();
+                }
+                if stuck >= 5 {
+                    break;
+                }
+                continue;
+            }
             total += askers;
             let all = tokio::time::timeout(Duration::from_secs(3), async {
                 for h in hs.iter_mut() {
@@ -88,11 +107,15 @@ fn main() {
                 for h in hs {
                     h.abort();
                 }
-                if hung >= 400 {
+                if hung >= 40 {
                     break;
                 }
             }
         }
-        println!("asks={total} hung={hung} {first}");
+        if stuck > 0 {
+            println!("asks={total} hung={hung} stuck_actors={stuck} {first}");
+        } else {
+            println!("asks={total} hung={hung} {first}");
+        }
     });
 }
